@@ -128,7 +128,9 @@ End Lib.
 Section Def.
 Variable dt : rty -> json -> dres.          (* deserialisation of field types *)
 
-Definition is_option_ty (t : rty) : bool := match t with ROption _ => true | _ => false end.
+(* a missing field is read from a deserializer that only answers `deserialize_option`; the transparent wrappers (Box, Rc, Arc,
+   Cow, Cell, RefCell, Mutex, RwLock) hand it on to their content *)
+Fixpoint is_option_ty (t : rty) : bool := match t with ROption _ => true | RWrap u => is_option_ty u | _ => false end.
 
 (* the named fields of a struct / struct variant read from the entries of an object: skipped fields take a placeholder
    (Default::default(); the serialiser never looks at it), a missing field is None for Option types and an error
